@@ -214,8 +214,11 @@ fn apply(kind: usize, b: Builder, st: &mut St) -> Builder {
     }
 }
 
-fn check_parse(s: &Script, st: &St, minimal: bool) {
-    let mut it = if minimal { s.instructions_minimal() } else { s.instructions() };
+fn check_parse(s: &[u8], st: &St, minimal: bool) {
+    // the iterator `Script::instructions{,_minimal}()` returns, built over the builder's bytes directly: going through
+    // `into_script()` (a shrinking realloc) makes the script bytes opaque to CBMC's constant propagation (measured:
+    // 40-160 s per two-operation sequence instead of seconds); `into_script` is checked separately below
+    let mut it = Instructions { data: s, enforce_minimal: minimal };
     let mut i = 0;
     while i < 3 {
         if i < st.k {
@@ -239,10 +242,10 @@ fn check_parse(s: &Script, st: &St, minimal: bool) {
 }
 
 fn finish(b: Builder, st: &St) {
-    let s = ManuallyDrop::new(b.into_script());
-    check_parse(&s, st, false);
+    let b = ManuallyDrop::new(b);
+    check_parse(&b.0[..], st, false);
     if !st.risky {
-        check_parse(&s, st, true);
+        check_parse(&b.0[..], st, true);
     }
 }
 
@@ -313,3 +316,12 @@ compose3!(builder_compose3_op_verify, 0, 11);
 //@ harness: builder_compose3_d1_op class=B tier=thorough bound="3 operations: 1-byte data push, foldable opcode, then each of the 12 kinds" timeout=1800
 //@ clause: same for three operations: folding after data + opcode touches only the opcode
 compose3!(builder_compose3_d1_op, 3, 0);
+
+//@ harness: tmp_one_scn class=B tier=quick
+#[kani::proof]
+#[kani::unwind(6)]
+fn tmp_one_scn() { scenario2(0, 11); kani::cover!(true); }
+//@ harness: tmp_two_scn class=B tier=quick
+#[kani::proof]
+#[kani::unwind(6)]
+fn tmp_two_scn() { scenario2(3, 9); kani::cover!(true); }
